@@ -87,6 +87,7 @@ void harness(void) {
 #endif
   }
   if (cancelled && susp == 0) { ASSERT(cancel_runs == 1, "CANCEL-HANDLER: the cancellation handler runs exactly once");
+    ASSERT(IR_LD64(IR_LD64(DS + P_OFF_ds_refs_h) + P_OFF_du_state) == 0, "FINAL STATE: once cancellation has completed the source is no longer registered with the event system, however and whenever it was cancelled");
 #if KIND == 0
     ASSERT(delivered_sum <= merged_sum, "no value is delivered that was not merged");
 #endif
